@@ -49,7 +49,7 @@ class HistGen(object):
                       create_index=6 if indexes else 0, drop_index=1 if indexes else 0,
                       drop_indexes=1 if indexes else 0, drop=1, clock=6 if ttl else 0,
                       find_one=0, find_one_and_update=0, find_one_and_replace=0,
-                      find_one_and_delete=0, bulk_write=0)
+                      find_one_and_delete=0, bulk_write=0, bulk_builder=0)
         if weights:
             self.w.update(weights)
         self.shadow = []          # rough picture of the documents, to aim filters and updates
@@ -134,6 +134,9 @@ class HistGen(object):
         if k == 'bulk_write':
             return ['bulk_write', [self.request() for _ in range(r.choice([1, 2, 3, 4, 5]))],
                     r.random() < 0.5]
+        if k == 'bulk_builder':
+            return ['bulk_builder', [self.request() for _ in range(r.choice([0, 1, 2, 3, 4]))],
+                    r.random() < 0.5, r.choice([1, 2, 2, 3])]
         if k == 'create_index':
             return self.create_index()
         if k == 'drop_index':
@@ -335,6 +338,8 @@ class PyRunner(object):
                         'upserted': [{'index': u['index'], '_id': u['_id']}
                                      for u in br['upserted']],
                         'writeErrors': []}, extra
+            if k == 'bulk_builder':
+                return self.bulk_builder(a[0], a[1], a[2]), extra
             if k == 'create_index':
                 return c.create_index([tuple(x) for x in a[0]], **a[1]), extra
             if k == 'drop_index':
@@ -361,6 +366,50 @@ class PyRunner(object):
             return ('!', 'BulkWriteError', det), extra
         except Exception as e:  # pylint: disable=broad-except
             return ('!', wire.err_name(e)), extra
+
+    @staticmethod
+    def bulk_details(d):
+        return {'nInserted': d['nInserted'], 'nMatched': d['nMatched'],
+                'nModified': d.get('nModified'), 'nRemoved': d['nRemoved'],
+                'nUpserted': d['nUpserted'],
+                'upserted': [{'index': u['index'], '_id': u['_id']} for u in d['upserted']],
+                'writeErrors': [{'index': w['index'], 'code': w['code']}
+                                for w in d.get('writeErrors', [])]}
+
+    def bulk_builder(self, reqs, ordered, times):
+        """the builder API (initialize_*_bulk_op, find().upsert().update_one() …), then
+        execute() `times` times; the outcome of every execute"""
+        c = self.coll
+        b = c.initialize_ordered_bulk_op() if ordered else c.initialize_unordered_bulk_op()
+        for q in reqs:
+            k, a = q[0], q[1:]
+            if k == 'InsertOne':
+                b.insert(a[0])
+                continue
+            op = b.find(a[0])
+            if k in ('UpdateOne', 'UpdateMany', 'ReplaceOne') and a[2]:
+                op = op.upsert()
+            if k == 'UpdateOne':
+                op.update_one(a[1])
+            elif k == 'UpdateMany':
+                op.update(a[1])
+            elif k == 'ReplaceOne':
+                op.replace_one(a[1])
+            elif k == 'DeleteOne':
+                op.remove_one()
+            elif k == 'DeleteMany':
+                op.remove()
+            else:
+                raise ValueError(k)
+        outs = []
+        for _ in range(times):
+            try:
+                outs.append({'k': 'val', 'v': self.bulk_details(b.execute())})
+            except BulkWriteError as e:
+                outs.append({'k': 'bulkErr', 'v': self.bulk_details(e.details)})
+            except Exception as e:  # pylint: disable=broad-except
+                outs.append({'k': 'err', 'v': wire.err_name(e)})
+        return outs
 
     def observe(self):
         try:
